@@ -44,7 +44,7 @@ def generate(seed, tier="quick"):
     rng = sub(seed, "program")
     prof = V.draw_profile(sub(seed, "profile"))
     prof.special = [s for s in prof.special if s not in ("norepr",)]
-    prog = W.gen_program(rng, prof, {"prev": PREV, "styles": ["rec"], "n_sites": (1, 5), "n_tests": (1, 3), "max_obs": 5})
+    prog = W.gen_program(rng, prof, {"prev": PREV, "styles": ["rec"], "n_sites": (1, 5), "n_tests": (1, 3), "max_obs": 5, "idle": 0.25})
     mrng = sub(seed, "mutation")
     if mrng.random() < 0.2:
         # one site observes the same object several times while the test mutates it in between
